@@ -85,7 +85,9 @@ func (w *world) data() *meta2.Data {
 	for _, db := range w.dbs {
 		di := meta2.NewDatabase(db)
 		di.DefaultRetentionPolicy = "autogen"
-		di.RetentionPolicies = map[string]*meta2.RetentionPolicyInfo{"autogen": meta2.NewRetentionPolicyInfo("autogen"), "ls0": meta2.NewRetentionPolicyInfo("ls0")}
+		ls := meta2.NewRetentionPolicyInfo("ls0")
+		ls.Measurements = map[string]*meta2.MeasurementInfo{"ls0_0000": {Name: "ls0_0000", Schema: &meta2.CleanSchema{}}}
+		di.RetentionPolicies = map[string]*meta2.RetentionPolicyInfo{"autogen": meta2.NewRetentionPolicyInfo("autogen"), "ls0": ls}
 		d.Databases[db] = di
 	}
 	for _, u := range w.users {
